@@ -42,9 +42,13 @@ def rand_str(rng, codec, n=None):
 
 def simfile_text(rng, fmt, codec):
     parts = []
-    if fmt == "ssc":
+    r = rng.random()
+    # the format follows the file name, not the first key: an .ssc file need not start with VERSION, an .sm file may
+    if (fmt == "ssc" and r < 0.8) or (fmt == "sm" and r < 0.12):
         parts.append("#VERSION:0.83;\n")
     parts.append("#TITLE:%s;\n" % rand_str(rng, codec))
+    if fmt == "ssc" and 0.8 <= r < 0.9:
+        parts.append("#VERSION:0.83;\n")
     if rng.random() < 0.7:
         parts.append("#ARTIST:%s;\n" % rand_str(rng, codec))
     parts.append("#BPMS:0.000=120.000;\n")
